@@ -20,4 +20,6 @@ def generate_all():
     info = {"obligations": {}}
     import gen_typestr
     info["obligations"]["C11"] = gen_typestr.generate()
+    import gen_bind
+    info["obligations"]["C10"] = gen_bind.generate()
     return info
